@@ -115,6 +115,7 @@ struct Case {
     niter: usize,
     xml: String,
     cont: bool,
+    rebits: Vec<(usize, usize)>,
 }
 
 fn parse_inval(s: &str) -> InputValue {
@@ -204,6 +205,7 @@ fn read_cases(text: &str) -> Vec<Case> {
             "sched" => cur.sched = f[1..].iter().map(|x| x.parse().unwrap()).collect(),
             "niter" => cur.niter = f[1].parse().unwrap(),
             "cont" => cur.cont = f[1] == "1",
+            "rebits" => cur.rebits.push((f[1].parse().unwrap(), f[2].parse().unwrap())),
             "end" => cases.push(cur.clone()),
             _ => {}
         }
@@ -607,10 +609,13 @@ fn do_bind(c: &Case, p: ParsedTestCase, buf: &mut String) -> Option<TestCase> {
     }
 }
 
-fn flush_calls(sh: &Sh, buf: &mut String) {
+fn flush_calls(sh: &Sh, buf: &mut String) -> usize {
+    let mut n = 0;
     for l in sh.borrow_mut().log.drain(..) {
         out(buf, &l);
+        n += 1;
     }
+    n
 }
 
 fn run_dynamic<D: TestDriver<Error = DrvError>>(
@@ -654,12 +659,13 @@ fn run_dynamic<D: TestDriver<Error = DrvError>>(
                             break;
                         }
                         Ok(Some(Err(e))) => {
-                            flush_calls(sh, &mut local);
+                            let ncalls = flush_calls(sh, &mut local);
                             let es = iteration_err_s(&e, |d: &DrvError| d.0);
                             out(&mut local, &format!("ITEM err {es}"));
-                            // the caller may go on after an IO error (not after an evaluation error:
-                            // what the statement iterator does after one is outside the properties)
-                            if !c.cont || es.contains("ExprError") {
+                            // the caller may go on after an error that followed the row's driver call (driver
+                            // error, unusable answer, virtual signal); not after an evaluation error of the
+                            // program itself: what the statement iterator does after one is outside the properties
+                            if !c.cont || ncalls == 0 {
                                 out(&mut local, "END err");
                                 break;
                             }
@@ -821,11 +827,8 @@ fn run_multi(c: &Case, tc: &TestCase, buf: &mut String) {
         let mut steps = 0;
         let mut pos = 0;
         while done.iter().any(|d| !d) && steps < c.max * n {
-            let who = if c.sched.is_empty() {
-                pos % n
-            } else {
-                c.sched[pos % c.sched.len()] % n
-            };
+            // the given schedule first, then round robin until every iterator is exhausted
+            let who = if pos < c.sched.len() { c.sched[pos] % n } else { pos % n };
             pos += 1;
             if done[who] {
                 continue;
@@ -957,7 +960,13 @@ fn run_case(c: &Case) -> String {
         "dig" => run_dig(c, &mut buf),
         "run" | "static" | "bind" | "multi" => {
             if let Some(p) = do_parse(c, &mut buf) {
-                if let Some(tc) = do_bind(c, p, &mut buf) {
+                if let Some(mut tc) = do_bind(c, p, &mut buf) {
+                    // `signals` is a public field: a caller may change a width after binding
+                    for (i, b) in &c.rebits {
+                        if *i < tc.signals.len() {
+                            tc.signals[*i].bits = *b;
+                        }
+                    }
                     match c.kind.as_str() {
                         "run" => {
                             if c.wdefault {
